@@ -38,14 +38,24 @@ def ratPowInt (b : Rat) (n : Int) : Rat := if n ≥ 0 then b ^ n.toNat else (1 /
 /-- Python `base ** exponent` on magnitudes -/
 def powM : M → M → Except UnitErr M
   | .num b fb, .num x fx =>
-      if x.den = 1 then
+      -- |x · log2 b| beyond the double range (estimated from bit lengths): Python raises OverflowError or underflows;
+      -- the exact model does not track such magnitudes
+      if (if x < 0 then -x else x) * ((((b.num.natAbs.log2 : Int) - (b.den.log2 : Int)).natAbs + 1 : Nat) : Rat) > 1000
+      then .error (.unsupported "power of an untracked magnitude")
+      else if x.den = 1 then
         if b = 0 ∧ x < 0 then .error (.otherException "ZeroDivisionError")
-        else .ok (.num (ratPowInt b x.num) (fb || fx || decide (x < 0)))
+        else if x.num.natAbs > 4000 then .error (.unsupported "power of an untracked magnitude")
+        else
+          let r := ratPowInt b x.num
+          -- Python float ** overflows to OverflowError beyond the double range (ints are unbounded)
+          if (fb || fx || decide (x < 0)) ∧ (r > 179769313486231570000 * 10 ^ 288 ∨ r < -(179769313486231570000 * 10 ^ 288))
+          then .error (.unsupported "power of an untracked magnitude")   -- beyond the double range: not tracked
+          else .ok (.num r (fb || fx || decide (x < 0)))
       else if b < 0 then .ok .weird
       else if b = 0 then .ok (.num 0 true)
       else .ok .anynum
   | .sym, _ | _, .sym => .ok .sym
-  | .weird, _ | _, .weird => .ok .weird
+  | .weird, _ | _, .weird => .error (.unsupported "power of an untracked magnitude")   -- complex / inf / nan
   | .anynum, .num x _ =>
       -- the base is a number the exact model does not track: it may be 0 (ZeroDivisionError) or negative (complex)
       if x < 0 ∨ x.den ≠ 1 then .error (.unsupported "power of an untracked magnitude") else .ok .anynum
